@@ -220,7 +220,6 @@ package dnsforward
 //@   modifies rr.Value, elems(rr.Value)
 //@   loop 1 invariant forall j int :: {mark(j)} 0 <= j && j < #i ==> !kvBlocked(rr.Value[j], setts)
 
-
 //@ define rrBlocked(rr dns.RR, setts *filtering.Settings) bool = (typeIs(rr, *dns.CNAME) && ruleBlocked(strings.TrimSuffix(unbox(rr, *dns.CNAME).Target, "."), 5, setts)) || (typeIs(rr, *dns.A) && ruleBlocked(unbox(rr, *dns.A).A.String(), 1, setts)) || (typeIs(rr, *dns.AAAA) && ruleBlocked(unbox(rr, *dns.AAAA).AAAA.String(), 28, setts)) || (typeIs(rr, *dns.HTTPS) && httpsV[unbox(rr, *dns.HTTPS)])
 // The first offending record - wherever it sits - replaces the response; without one the answer is delivered unchanged.
 //@ func (s *Server) filterDNSResponse(dctx *dnsContext) (err error)
